@@ -78,7 +78,7 @@ theorem frame_stepOpen (c : Case) (s : St) (p : Pop) (h : p.isFault = false) :
   cases p with
   | fault t f a => simp [Pop.isFault] at h
   | cancel t f => simp [Pop.isFault] at h
-  | healall t => simp [Pop.isFault] at h
+  | healall t k => simp [Pop.isFault] at h
   | job t j cont =>
     cases cont with
     | false =>
@@ -139,8 +139,8 @@ theorem step_fault (c : Case) (s : St) (t f : Nat) (a : Bool) (ft : Fault)
   exact ⟨by simpa using this.1, by simpa using this.2.1, by simpa using this.2.2⟩
 
 /-- `Network.heal_partition()` touches the partition reference counts and handles only -/
-theorem step_healall (c : Case) (s : St) (t : Nat) :
-    (step c s (.healall t)).1 = { s with ws := s.ws.healAll } := by
+theorem step_healall (c : Case) (s : St) (t k : Nat) :
+    (step c s (.healall t k)).1 = { s with ws := s.ws.healAll k (c.partOn k) } := by
   simp [step, popEntity, stepOpen]
 
 /-- `FaultHandle.cancel()` only marks the handle -/
